@@ -10,8 +10,11 @@ PROP = {'level': 'proof',
           'differs from Ord::cmp on [2] vs [1,1]). One restriction is proved exactly: eq_rangeinc_* equals '
           '== iff the private `exhausted` flags agree (known finding F8). The model is tied to the code by '
           'an exhaustive small-scope differential run through every named function, '
-          'CmpWrapper/coerce_to_cmp! dispatch and every comparator form of the *_for! macros.',
- 'sources': [('harness', 'c16')],
+          'CmpWrapper/coerce_to_cmp! dispatch and every comparator form of the *_for! macros, and by generated '
+          'programs that use every macro as an expression (argument expressions with side effects: each evaluated '
+          'once, left first, value = std on those values - as found assertc_*! evaluated the left argument twice, '
+          'F10, fixed by e16d62f; non-tail positions under foreign return types).',
+ 'sources': [('harness', 'c16'), ('programs', 'c16')],
  'exhaustive': True,
  'rule': 'Exhaustive: all ordered pairs of slices over two 3-letter alphabets ({0,1,2} and {MIN,-1 or '
          'mid,MAX}) up to length 3 (thorough 4; bool: 2 letters up to length 4/6) for each of the 14 element '
@@ -32,7 +35,17 @@ PROP = {'level': 'proof',
          'also through forkey/forcl/forpath and a quarter as Some(..) through the Option functions; 300 / 3 '
          '000 pairs of strings of 10..=40 chars with many multi-byte characters differing late; 150 / 1 500 '
          'pairs each of &[&str] and &[&[u8]] of 10..=40 elements (short elements, and long elements that '
-         'themselves share long prefixes).',
+         'themselves share long prefixes). Generated programs (vlib/progs/c16.py, 376 units, 86 780 / 308 054 '
+         'rows): every macro form (const_cmp!/const_eq! on u8, &[u8], &str, Option, Range, RangeInclusive; '
+         'const_*_for!(slice|option|range|range_inclusive;..) with default, key, two-argument-closure and path '
+         'comparators; assertc_eq!/assertc_ne!) (a) with argument expressions that advance a cursor or increment a '
+         'counter, all ordered pairs of value streams of length 1-2 over 3-5 values plus seeded streams of length '
+         '3-4, observing value, number of evaluations of each argument and their order against std ==/cmp/assert_eq! '
+         'on the same expressions; (b) in the positions .reverse(), matches!(..,Less) in a const fn -> bool, == '
+         'Ordering::Less, let + a second key with priority, if let in a const fn -> u8, match in a const fn -> i8, '
+         'inside the caller\'s while loop, two lets, a closure returning String, const item initialisers (and !, if, '
+         'match, loop, lets, closure, const items for the bool-valued macros), on all ordered pairs of 4-19 values per '
+         'type; a position rustc rejects is the observation `reject`.',
  'explanation': 'Theorems (Props/C16.lean) state model = std spec for every pair; the transcript ties the '
                 'model to the code (impl = model) and the spec to the real std (spec = oracle PartialEq::eq '
                 '/ Ord::cmp) on every request.',
